@@ -7,6 +7,7 @@ import io
 import json
 import logging
 import os
+import pathlib
 import random
 import shutil
 import subprocess
@@ -224,7 +225,7 @@ def run_collection(cid, docs, allow, strict, via, seed, tracer, tmproot):
                         p = os.path.join(tmpdir, "f%02d.mos.xml" % i)
                         with open(p, "wb") as fh:
                             fh.write(as_bytes(t))
-                        paths.append(p)
+                        paths.append(pathlib.Path(p) if i % 2 else p)       # Path objects and plain strings alike
                     mc = MosCollection.from_files(paths, allow_incomplete=allow)
                 else:
                     # keys are named so that key order is the supply order; extra non-matching keys are present
